@@ -21,7 +21,11 @@ static PROGRESS: Mutex<Option<std::fs::File>> = Mutex::new(None);
 const SLOT: u64 = 256;
 
 fn progress_path(verif_dir: &str) -> String {
-    format!("{}/harness/target/c08-progress.bin", verif_dir)
+    std::env::current_exe()
+        .ok()
+        .and_then(|p| p.parent().and_then(|d| d.parent()).map(|t| t.join("c08-progress.bin")))
+        .map(|p| p.to_string_lossy().to_string())
+        .unwrap_or_else(|| format!("{}/harness/target/c08-progress.bin", verif_dir))
 }
 
 fn announce(text: &str) {
